@@ -88,9 +88,10 @@ def sentinel_rule(ctx, rid):
     while p_ is not None and isinstance(p_, (ast.BoolOp, ast.UnaryOp)):
         holder = p_
         p_ = getattr(p_, "_parent", None)
+    t_txt = norm(t)
 
     def tv(e, has_default, wait_v, file_v):
-        if e is t:
+        if norm(e) == t_txt:
             r_ = not has_default            # `<default> is <sentinel>`
             return r_ if isinstance(t.ops[0], (ast.Is, ast.Eq)) else not r_
         if isinstance(e, ast.BoolOp):
@@ -103,8 +104,8 @@ def sentinel_rule(ctx, rid):
         if isinstance(e, ast.Call) and norm(e.func) in ("os.path.isfile", "os.path.exists"):
             return file_v
         raise AnalysisError("idiom changed: term `%s` of the Reaper's use-default decision" % norm(e))
-    # which outcome of the decision builds the stand-ins?  (the loader's normal form may have turned `if not d: A else: B`
-    # into `if d: B else: A`, and a twin may write the decision either way round)
+
+    # which If decides between the stand-ins and the read, and with which expression?
     def _has_standin(stmts):
         for s_ in stmts:
             for x in ast.walk(s_):
@@ -112,22 +113,33 @@ def sentinel_rule(ctx, rid):
                     return True
         return False
     standin_when = True
-    hp = getattr(holder, "_parent", None)
-    ctrl = None
-    if isinstance(hp, ast.If) and hp.test is holder:
-        ctrl, pol = hp, True
-    elif isinstance(hp, ast.Assign) and isinstance(hp.targets[0], ast.Name):
-        vname = hp.targets[0].id
-        for fn_ in scan:
-            for x in walk_shallow(fn_.node):
-                if isinstance(x, ast.If) and norm(x.test) in (vname, "not " + vname):
-                    ctrl, pol = x, norm(x.test) == vname
-    if ctrl is not None:
-        in_body, in_else = _has_standin(ctrl.body), _has_standin(ctrl.orelse)
-        if in_body != in_else:
-            standin_when = pol if in_body else not pol
-        else:
-            raise AnalysisError("idiom changed: which outcome of the Reaper's use-default decision builds the stand-ins")
+    ctrls = []
+    for fn_ in scan:
+        for x in walk_shallow(fn_.node):
+            if isinstance(x, ast.If) and _has_standin(x.body) != _has_standin(x.orelse):
+                ctrls.append((fn_, x))
+    need(len(ctrls) == 1, "idiom changed: which outcome of the Reaper's use-default decision builds the stand-ins")
+    cfn, ctrl = ctrls[0]
+    test_e = ctrl.test
+    pol = True
+    while isinstance(test_e, ast.UnaryOp) and isinstance(test_e.op, ast.Not):
+        test_e, pol = test_e.operand, not pol
+    standin_when = pol if _has_standin(ctrl.body) else not pol
+
+    def expand(e, depth=0):
+        """the decision expression with flag variables replaced by their (first, non-constant) definitions"""
+        if isinstance(e, ast.Name) and depth < 4:
+            defs_ = sorted((n_ for n_ in walk_shallow(cfn.node) if isinstance(n_, ast.Assign) and isinstance(n_.targets[0], ast.Name) and n_.targets[0].id == e.id and not isinstance(n_.value, ast.Constant)), key=lambda n_: n_.lineno)
+            if len(defs_) == 1:
+                return expand(defs_[0].value, depth + 1)
+            return e
+        if isinstance(e, ast.BoolOp):
+            return ast.BoolOp(op=e.op, values=[expand(v_, depth) for v_ in e.values])
+        if isinstance(e, ast.UnaryOp) and isinstance(e.op, ast.Not):
+            return ast.UnaryOp(op=e.op, operand=expand(e.operand, depth))
+        return e
+    holder = expand(test_e)
+    need(t_txt in norm(holder), "idiom changed: the test that selects the stand-ins (`%s`) does not involve the no-default sentinel" % norm(test_e)[:60])
     if holder is not t:
         wrong = []
         for hd in (True, False):
